@@ -38,6 +38,13 @@ impl vstd::std_specs::convert::FromSpecImpl<u64> for BigUint {
 impl From<u64> for BigUint {
 //@ stub u_conv/from_u64
 }
+impl vstd::std_specs::convert::FromSpecImpl<u32> for BigUint {
+    open spec fn obeys_from_spec() -> bool { false }
+    open spec fn from_spec(v: u32) -> BigUint { arbitrary() }
+}
+impl From<u32> for BigUint {
+//@ stub u_conv/from_u32
+}
 impl vstd::std_specs::convert::FromSpecImpl<u128> for BigUint {
     open spec fn obeys_from_spec() -> bool { false }
     open spec fn from_spec(v: u128) -> BigUint { arbitrary() }
